@@ -11,6 +11,7 @@ import (
 	"fmt"
 	"hash/fnv"
 	"os"
+	"runtime"
 	"sort"
 	"strings"
 	"sync"
@@ -402,7 +403,25 @@ func MainArgs(args []string, checks map[string]Check) {
 		r.known = map[string]bool{} // a replay never hides behind the known list
 		r.replaying = &v
 		go r.watchdog(true)
-		got := c.Replay(r, v)
+		var got *Violation
+		func() {
+			defer func() {
+				if p := recover(); p != nil {
+					if _, ok := p.(harnessAbort); ok {
+						panic(p)
+					}
+					origin, repo := panicOrigin()
+					if !repo {
+						panic(p)
+					}
+					pv := v
+					pv.Observed = fmt.Sprintf("panic: %v (in %s)", p, origin)
+					pv.Explanation = fmt.Sprintf("the implementation panicked in this case: %v (in %s)", p, origin)
+					got = &pv
+				}
+			}()
+			got = c.Replay(r, v)
+		}()
 		enc := json.NewEncoder(os.Stdout)
 		enc.SetIndent("", " ")
 		if got == nil {
@@ -434,6 +453,25 @@ func MainArgs(args []string, checks map[string]Check) {
 					code = 2
 					return
 				}
+				// A panic that started in the code under test (not in the harness) while a named case was running is a
+				// violation of that case: "does not panic" is part of every property that speaks about results. The
+				// worker stops there; what it had not reached yet is reported as not explored.
+				if origin, repo := panicOrigin(); repo {
+					r.curMu.Lock()
+					check, input, choices := r.curCheck, r.curInput, r.curChoice
+					r.curMu.Unlock()
+					if input != nil {
+						raw, _ := json.Marshal(input)
+						r.NViolations++
+						r.Violations = append(r.Violations, Violation{Tier: r.Tier, Shard: r.Shard, NShards: r.NShards, Seed: r.Seed, MapRot: vsched.DefaultRot, Property: r.Property,
+							Check: check, Input: raw, InputGob: losslessGob(input, raw), Choices: choices,
+							Observed: fmt.Sprintf("panic: %v (in %s)", p, origin), Expected: "a result or an error",
+							Explanation: fmt.Sprintf("the implementation panicked in this case: %v (in %s)", p, origin)})
+						r.Exhaustive = false
+						r.Caps = append(r.Caps, "worker stopped: the implementation panicked")
+						return
+					}
+				}
 				panic(p)
 			}
 		}()
@@ -461,6 +499,26 @@ func MainArgs(args []string, checks map[string]Check) {
 		code = 1
 	}
 	os.Exit(code)
+}
+
+// panicOrigin walks the stack of a recovered panic: the first frame outside the Go runtime and standard library tells
+// whether the panic started in the code under test (repo = true) or in the harness.
+func panicOrigin() (origin string, repo bool) {
+	pcs := make([]uintptr, 64)
+	n := runtime.Callers(3, pcs)
+	frames := runtime.CallersFrames(pcs[:n])
+	goroot := runtime.GOROOT()
+	for {
+		f, more := frames.Next()
+		std := strings.HasPrefix(f.File, goroot) || strings.HasPrefix(f.Function, "runtime.") || !strings.Contains(f.Function, ".") || (!strings.Contains(f.Function, "/") && !strings.HasPrefix(f.Function, "main."))
+		if !std {
+			harness := strings.Contains(f.File, "zzverif") || strings.Contains(f.File, "zz_verif_") || strings.Contains(f.File, "/verif/harness/") || strings.Contains(f.Function, "/zzverif/")
+			return fmt.Sprintf("%s %s:%d", f.Function, f.File, f.Line), !harness && strings.Contains(f.Function, "tdakkota/docker-logql")
+		}
+		if !more {
+			return "", false
+		}
+	}
 }
 
 // ReplayOne is a helper for Check.Replay implementations: run f, return the first violation recorded.
